@@ -7,7 +7,7 @@ from conda_content_trust import common as C
 
 from vlib import gen_json as G, gen_pyvalues as GP, keys, ref_grammar as g
 from vlib import fuzz as FZ
-from vlib import cfgunit as _cfgunit
+from vlib import cfgunit as _cfgunit, interrupt as _interrupt
 from vlib.runner import Unit, Violation
 
 PROPERTY = "C15"
@@ -303,4 +303,7 @@ UNITS = [
          doc="every position x every special character x {insert, substitute, substitute+delete, replace a byte pair} on a valid key/signature/fingerprint"),
     _cfgunit.unit_under_config(PROPERTY, 'strings', exclude=(), closed_stdout=True, n_cases=60),
     _cfgunit.unit_under_config(PROPERTY, 'entries', exclude=(), closed_stdout=True, n_cases=60),
+    _interrupt.unit_interrupted(PROPERTY, 'strings', quick=30, thorough=750, max_points=150),
+    _interrupt.unit_interrupted(PROPERTY, 'entries', quick=30, thorough=750, max_points=150),
+    _interrupt.unit_interrupted(PROPERTY, 'keylists', quick=20, thorough=500, max_points=150),
 ]
